@@ -163,13 +163,26 @@ impl RCell {
         }
         if cap.len() >= 3 {
             let c = cap.iter().copied().sum::<DVec3>() / cap.len() as f64;
-            let u = n.any_orthonormal_vector();
+            // in-plane frame taken from the data: u towards the cap point farthest from the centroid, w = n x u; both
+            // coordinates are divided by their own extent before the angle is taken (a positive scaling of the two axes
+            // preserves the cyclic order of a convex polygon). With an arbitrary orthonormal frame and raw coordinates the
+            // cap of a 1D/2D cell in a box of 1e-30 (in-plane extent 1e-30 along one direction, 1 along the unit-thickness
+            // axis) has angles that differ from +-pi/2 by 1e-30: the order was lost and the polygon came out as a bow tie
+            // (found by the Qhull cross-check: reference 40 % off, implementation and Qhull equal to 1e-13).
+            let far = cap.iter().copied().fold((0.0f64, DVec3::ZERO), |m, p| if (p - c).length_squared() > m.0 { ((p - c).length_squared(), p - c) } else { m }).1;
+            let mut u = far - n * far.dot(n);
+            if !(u.length() > 0.) {
+                u = n.any_orthonormal_vector();
+            }
+            let u = u.normalize();
             let w = n.cross(u);
+            let eu = cap.iter().map(|&p| (p - c).dot(u).abs()).fold(0.0f64, f64::max).max(f64::MIN_POSITIVE);
+            let ew = cap.iter().map(|&p| (p - c).dot(w).abs()).fold(0.0f64, f64::max).max(f64::MIN_POSITIVE);
             let mut pts: Vec<(f64, DVec3)> = cap
                 .iter()
                 .map(|&p| {
                     let r = p - c;
-                    (r.dot(w).atan2(r.dot(u)), p)
+                    ((r.dot(w) / ew).atan2(r.dot(u) / eu), p)
                 })
                 .collect();
             pts.sort_by(|a, b| a.0.partial_cmp(&b.0).unwrap());
